@@ -263,8 +263,47 @@ let print_outcome (id : string) (o : outcome) =
 let find_field (name : string) (fields : sexp list) : sexp list option =
   List.fold_left (fun acc f -> match f with L (A n :: rest) when n = name -> Some rest | _ -> acc) None fields
 
+(* ------------------------------------------------------------------ documents *)
+let style_of = function
+  | "text" -> SText | "emphasis" -> SEmphasis | "literal" -> SLiteral | "metavar" -> SMetavar
+  | "invalid" -> SInvalid | s -> failwith ("bad style " ^ s)
+let block_of = function
+  | "header" -> BHeader | "section2" -> BSection2 | "section3" -> BSection3 | "itemterm" -> BItemTerm
+  | "itembody" -> BItemBody | "definitionlist" -> BDefinitionList | "block" -> BBlock
+  | "inlineblock" -> BInlineBlock | "termref" -> BTermRef | "meta" -> BMeta | "mono" -> BMono
+  | s -> failwith ("bad block " ^ s)
+
+let cdoc_of_sexp (s : sexp) : cdoc =
+  match s with
+  | L (A "doc" :: toks) ->
+    List.map (function
+        | L [A "t"; A st; h] ->
+          (match utf8_decode (hx h) with
+           | Some cs -> CText (style_of st, cs)
+           | None -> failwith "doc text is not UTF-8")
+        | L [A "s"; A b] -> CStart (block_of b)
+        | L [A "e"; A b] -> CEnd (block_of b)
+        | _ -> failwith "bad doc token") toks
+  | _ -> failwith "bad doc"
+
+let run_render (id : string) (fields : sexp list) =
+  let doc = match List.filter (function L (A "doc" :: _) -> true | _ -> false) fields with
+    | [d] -> cdoc_of_sexp d | _ -> failwith "render needs one doc" in
+  let widths = match find_field "widths" fields with
+    | Some l -> List.map (function A w -> int_of_string w | _ -> failwith "bad width") l | None -> [100] in
+  let full = match find_field "full" fields with Some [A "0"] -> false | _ -> true in
+  let docgen = match find_field "feat" fields with Some l -> List.mem (A "docgen") l | None -> true in
+  let one w = match render_console docgen full (n_of_int w) doc with
+    | Some out -> Printf.sprintf "%d:%s" w (hex_of_bytes (utf8_encode out))
+    | None -> Printf.sprintf "%d:PANIC" w in
+  Printf.printf "%s\tRENDER\t%s\n" id (String.concat ";" (List.map one widths))
+
 let run_case (line : string) =
   match parse_sexp line with
+  | L (A "render" :: A id :: fields) ->
+    (try run_render id fields
+     with Failure m -> Printf.printf "%s\tBADCASE\t%s\n" id m
+        | Stack_overflow -> Printf.printf "%s\tBADCASE\tstack_overflow\n" id)
   | L (A "case" :: A id :: opts :: fields) ->
     (try
        let o = options_of_sexp opts in
